@@ -1,3 +1,4 @@
+import re
 """IDL parser properties: C05 (conformant descriptions parse to the tree they denote), C06 (nothing ill-formed
 accepted / nothing ignored), C09 (totality).  spec/Idl.tla defines the description space, the printer and the
 edits; spec/IdlTrace.tla is the judge; spec/IdlCursor.tla is the cursor model of C09."""
@@ -45,7 +46,7 @@ def check_C06(run):
     thorough = run.tier == "thorough"
     _, c06 = idl_gen(run, 1, thorough)
     run.extra["edit_space"] = len(c06)
-    na = [c for c in c06 if 'U1"' in c or 'U4"' in c]          # edits that bring in a name with a non-ASCII letter
+    na = [c for c in c06 if re.search(r'U[1-9]"', c)]          # edits that bring in a name with a non-ASCII letter
     cases = c06 if thorough else run.rng.sample(c06, min(len(c06), 6000)) + run.rng.sample(na, min(len(na), 600))
     table_replay(run, cases, ["idl", "-mode", "c06"], "IdlTrace", TR_CFG, "C06 single-token edits of valid descriptions", shards=16,
                  nontrivial=lambda c: '"accepted":true' in c)
@@ -153,6 +154,13 @@ def check_C08(run):
         # the emitted test program did not compile or died: a bug of the harness' emitter, or a crash inside the
         # generated code / library
         f = json.loads(fails[0])
+        if "cannot use" in f.get("stderr", "") and "verifgen/cmd/" in f.get("stderr", ""):
+            # the emitted program is written against the reference Go types of the description's types: it no longer
+            # type-checks against the generated package
+            run.violation("the generated API of program %s does not have the Go types the description's types map to: %s" % (f.get("prog"), f["stderr"][:700]),
+                          {"kind": "api-type", "event": f})
+            run.write_evidence("translation_validation", "incomplete run: the emitted test program of one description did not type-check against the generated package", exhaustive=False, assumptions=[])
+            return
         if "panic: harness:" in f.get("stderr", ""):
             raise Inconclusive("the emitted test program hit a harness limitation: " + f["stderr"][:1200])
         if "panic" in f.get("stderr", "") and ("verifgen/p" in f["stderr"] or "github.com/varlink/go" in f["stderr"]):
